@@ -951,6 +951,15 @@ def generator_pairings(ctx, cfg, fn):
                 if org is None:
                     continue
                 root, gs, ge = org
+                # a slice captured by the closure: continue in the body that created the closure
+                if root[0] == 'cont' and root[1] == 1 and ozf.body.kind == 'Closure' and len(root[2]) == 1 and str(root[2][0]).isdigit():
+                    cctx = ozf.closure_ctx()
+                    if cctx is not None and int(root[2][0]) < len(cctx[2]) and cctx[2][int(root[2][0])]['k'] in ('copy', 'move'):
+                        pzf0 = cctx[0]
+                        porg = pzf0.slice_origin(pzf0.desc_place(cctx[2][int(root[2][0])]['pl']))
+                        if porg is not None and gs is not None and porg[1] is not None:
+                            root, gs, ge = porg[0], ZoneSum(porg[1], gs), None
+                            ozf = pzf0
                 is_gen = _is_generator_values(ozf, root)
                 is_param_slice = root[0] == 'cont' and ozf.fd.is_param(root[1]) and not root[2] and 'G1Projective' in ozf.body.local_ty(root[1])
                 if not (is_gen or is_param_slice):
@@ -958,6 +967,15 @@ def generator_pairings(ctx, cfg, fn):
             rec = {'where': '%s L%s' % (b.file(), t['line']), 'start': gs if is_gen else None, 'helper_param': root[1] if is_param_slice else None,
                    'gpos': po[2] if po[0] == 'idx' else None, 'indexed_by_list': po[0] == 'idx' and po[3], 'kind': 'other', 'mpos': None, 'same_iteration': None,
                    'mstart': None, 'fn': path}
+            # the index itself is an item of an iterator parameter, drawn in the same iteration as the scalar (`indexes.zip(scalars)`)
+            if po[0] == 'idx' and po[2] is not None and po[2][0] and zf.body.kind == 'Closure':
+                es = zf.closure_elem_sym(po[2][0])
+                cctx = zf.closure_ctx()
+                if es and es.startswith('elem:') and cctx is not None:
+                    pb = cctx[0].body
+                    k = pb.param_index(es[5:].split('.')[0])
+                    if k is not None and not pb.local_ty(k).replace('&mut ', '').lstrip('&').strip().startswith(('[', 'std::vec::Vec<')):
+                        rec['index_param'] = k
             if so is not None and so[0] == 'call' and str(so[1]).endswith('calculate_domain'):
                 rec['kind'] = 'domain'
             elif so is not None and so[0] == 'it' and so[1] is not None and so[1][0] == 'iterparam':
@@ -1025,14 +1043,33 @@ def rule_generator_pairing(ctx, cfg='prod-all', fns=None):
                     cont = _position_container(czf, sarg)
                     sorg = czf.slice_origin(cont) if cont is not None else None
                     sty = czf.body.local_ty(sorg[0][1]) if sorg and sorg[0][0] == 'cont' else ''
+                    same = r['same_iteration']
+                    how = 'one zip'
+                    if r.get('index_param') is not None:
+                        # helper(base, H, indexes, scalars): the k-th scalar meets H[k-th index]; with `0..L` as indexes that is H[k]
+                        iarg = via[1]['args'][r['index_param'] - 1]
+                        rng = None
+                        if iarg['k'] in ('copy', 'move') and not iarg['pl'].get('p'):
+                            d0 = czf.single_def(iarg['pl']['l'])
+                            if d0 and d0[0] == 'assign' and d0[2]['rv']['k'] == 'agg' and d0[2]['rv'].get('name') == 'std::ops::Range':
+                                rng = (czf.term_op(d0[2]['rv']['ops'][0]), czf.term_op(d0[2]['rv']['ops'][1]))
+                        if rng is not None:
+                            same = rng[0] == (None, 0)
+                            how = 'index range %s..%s zipped with the scalars' % (tfmt(rng[0]), tfmt(rng[1]))
+                        else:
+                            # an index list: every index addresses H (offset judged here, positions by the index-list rules RF-L)
+                            if start is not None:
+                                yield Ob('RF-M', key + ':H-offset', start == (None, 1), 'generators addressed by message position are taken from generators.values[1..]',
+                                         r['where'], fact={'generator_slice_start': tfmt(start), 'through': f.split('::')[-1]}, expected='1')
+                            continue
                     if sorg and 'BBSplusMessage' in sty:
                         n_msg += 1
                         yield Ob('RF-M', key + ':H-offset', start == (None, 1) and sorg[1] == (None, 0),
                                  'the generators multiplied with messages are taken from generators.values[1..] (H_i = values[i + 1])', r['where'],
                                  fact={'generator_slice_start': tfmt(start), 'message_slice_start': tfmt(sorg[1]), 'through': f.split('::')[-1]}, expected='1 / 0')
-                        yield Ob('RF-M', key + ':position', r['same_iteration'] is True,
+                        yield Ob('RF-M', key + ':position', same is True,
                                  'message i is multiplied with the generator at the same position of the H slice', r['where'],
-                                 fact={'same_iteration': r['same_iteration'], 'through': f.split('::')[-1]}, expected='one zip')
+                                 fact={'same_iteration': same, 'how': how, 'through': f.split('::')[-1]}, expected='one zip')
                     continue
                 if r['kind'] == 'domain':
                     pos = ZoneSum(start, r['gpos'])
